@@ -166,6 +166,25 @@ def run(ctx):
             defaults_seen["expiration"].add(a[4])
     ctx.ob("R3", "root-wrapper", rsite.loc(), "build_root_metadata " + ("returns build_delegating_metadata('root', {'root': ..., 'key_mgr': ...}, version, timestamp, expiration) of its own arguments, unmodified" if ok_all else "deviates: " + why), ok_all)
 
+    # ---- R5 "either raise an argument error or return ...": whatever leaves the builders is a
+    # TypeError or a ValueError (the classes the documentation names for bad arguments)
+    for bq in ("metadata_construction.build_delegating_metadata", "metadata_construction.build_root_metadata"):
+        bsm = eng.walk(bq)
+        seen_esc = set()
+        for p in bsm.paths:
+            if p.kind != "raise":
+                continue
+            x = p.value
+            ok_e = prog.exc_is_sub(x.exc, "TypeError") or prog.exc_is_sub(x.exc, "ValueError")
+            k = (x.exc, x.chain[-1].key())
+            if ok_e or k in seen_esc:
+                continue
+            seen_esc.add(k)
+            ctx.ob("R5", "escape|%s|%s|%s" % (bq.split(".")[-1], x.exc, x.chain[-1].key()), x.chain[-1].loc(), "%s can fail with %s (%s) at %s: not an argument error" % (bq.split(".")[-1], x.exc, x.why[:80], x.chain[-1].text[:60]), False)
+        ctx.count("R5.builders")
+        if not seen_esc:
+            ctx.ob("R5", "argument-errors-only|%s" % bq.split(".")[-1], fn_site(eng, bsm).loc(), "%s: every failing path raises TypeError or ValueError (%d failing paths)" % (bq.split(".")[-1], len([p for p in bsm.paths if p.kind == "raise"])), True)
+
     # ---- R4 defaults and helper
     for f, vals in sorted(defaults_seen.items()):
         for val in sorted(vals, key=repr):
